@@ -673,6 +673,11 @@ class DocTest:
             # sys.modules[dummy_name] = dummy_mod
 
             test_globals.update(self.module.__dict__)
+            if isinstance(test_globals.get('__annotations__'), dict):
+                # An annotated assignment in the doctest records its
+                # annotation in the __annotations__ it finds in its globals:
+                # that must not be the dictionary of the module itself.
+                test_globals['__annotations__'] = dict(test_globals['__annotations__'])
             # test_globals.update(dummy_mod.__dict__)
             # importable_attrs = {
             #     k: v for k, v in self.module.__dict__.items()
